@@ -408,6 +408,14 @@ func Render(s *Spec) *Rendered {
 		if s.Spell == SpRenamedImp {
 			r.q = "dd."
 		}
+		if s.Spell == SpDotImport {
+			if !s.Mix.NoOwn {
+				panic("SpDotImport needs Mix.NoOwn: the using package cannot declare its own T next to a dot import of d")
+			}
+			r.q = ""
+		}
+	} else if s.Spell == SpDotImport {
+		panic("SpDotImport needs InU")
 	}
 	r.tName, r.pName, r.oName, r.nName = r.q+"T", r.q+"P", r.q+"O", r.q+"N"
 	r.ptName = "*" + r.tName
@@ -451,6 +459,8 @@ func Render(s *Spec) *Rendered {
 		if s.InU {
 			if s.Spell == SpRenamedImp {
 				w.add(`import dd "ex.com/m/d"`)
+			} else if s.Spell == SpDotImport {
+				w.add(`import . "ex.com/m/d"`)
 			} else {
 				w.add(`import "ex.com/m/d"`)
 			}
